@@ -47,4 +47,30 @@ theorem px2_from_p16_n32 : widths 32 1 (pxFrom16 Spec.px2 crate.convert.PxE2.fro
 theorem px1_from_p8_all : widths 2 31 (pxFrom8 Spec.px1 crate.convert.PxE1.from_p8e0) = true := by native_decide
 theorem px1_from_p16_all : widths 2 31 (pxFrom16 Spec.px1 crate.convert.PxE1.from_p16e1) = true := by native_decide
 
+/-! generic-to-generic (added with the `gg_*` operations): every source width 2..=13 (all patterns) into EVERY target width 2..=32 -/
+theorem px2_from_px1_small : widths 2 12 (fun m => widths 2 31 (pxGG Spec.px1 Spec.px2 crate.convert.PxE2.from_pxe1 m)) = true := by native_decide
+theorem px1_from_px2_small : widths 2 12 (fun m => widths 2 31 (pxGG Spec.px2 Spec.px1 crate.convert.PxE1.from_pxe2 m)) = true := by native_decide
+theorem px2_from_px2_small : widths 2 12 (fun m => widths 2 31 (pxGG Spec.px2 Spec.px2 crate.convert.PxE2.from_pxe2 m)) = true := by native_decide
+theorem px2_from_px1 (m n a : Nat) (hm : 2 ≤ m) (hm' : m < 14) (hn : 2 ≤ n) (hn' : n < 33) (ha : a < 2 ^ m) :
+    crate.convert.PxE2.from_pxe1 (UInt32.ofNat n) (UInt32.ofNat m) (emb m a) = .ok (emb n (Spec.conv (Spec.px1 m) (Spec.px2 n) a)) := by
+  have := all1_imp (allRange_imp (allRange_imp px2_from_px1_small m hm (by omega)) n hn (by omega)) a ha
+  exact (isOk_iff _ _).mp this
+theorem px1_from_px2 (m n a : Nat) (hm : 2 ≤ m) (hm' : m < 14) (hn : 2 ≤ n) (hn' : n < 33) (ha : a < 2 ^ m) :
+    crate.convert.PxE1.from_pxe2 (UInt32.ofNat n) (UInt32.ofNat m) (emb m a) = .ok (emb n (Spec.conv (Spec.px2 m) (Spec.px1 n) a)) := by
+  have := all1_imp (allRange_imp (allRange_imp px1_from_px2_small m hm (by omega)) n hn (by omega)) a ha
+  exact (isOk_iff _ _).mp this
+theorem px2_from_px2 (m n a : Nat) (hm : 2 ≤ m) (hm' : m < 14) (hn : 2 ≤ n) (hn' : n < 33) (ha : a < 2 ^ m) :
+    crate.convert.PxE2.from_pxe2 (UInt32.ofNat n) (UInt32.ofNat m) (emb m a) = .ok (emb n (Spec.conv (Spec.px2 m) (Spec.px2 n) a)) := by
+  have := all1_imp (allRange_imp (allRange_imp px2_from_px2_small m hm (by omega)) n hn (by omega)) a ha
+  exact (isOk_iff _ _).mp this
+/-- the `to_*` and `From` spellings are the same functions (every width pair, every pattern) -/
+theorem px2_to_px1_eq (n m : UInt32) (x : Int32) : crate.convert.PxE2.to_pxe1 n m x = crate.convert.PxE1.from_pxe2 m n x := by
+  simp [crate.convert.PxE2.to_pxe1]
+theorem px1_to_px2_eq (n m : UInt32) (x : Int32) : crate.convert.PxE1.to_pxe2 n m x = crate.convert.PxE2.from_pxe1 m n x := by
+  simp [crate.convert.PxE1.to_pxe2]
+theorem px1_From_px2_eq (n m : UInt32) (x : Int32) : crate.convert.PxE1.From_PxE2.from m n x = crate.convert.PxE1.from_pxe2 n m x := by
+  simp [crate.convert.PxE1.From_PxE2.from]
+theorem px2_From_px1_eq (n m : UInt32) (x : Int32) : crate.convert.PxE2.From_PxE1.from m n x = crate.convert.PxE2.from_pxe1 n m x := by
+  simp [crate.convert.PxE2.From_PxE1.from]
+
 end C14
